@@ -361,9 +361,9 @@ static void caseMeasure(const Obj& o, Ctx& c) {
     if (!s.str().empty()) c.viol("counts:" + N, N, s.str());
     // NumPropVert is not named in the property sentence; it is a count getter with a documented meaning ("the number of property
     // vertices ... always >= NumVert") whose brute-force definition is the vertex count of the export.  Its own key class.
-    if (m.NumPropVert() != o.topo.nPropVert)
-      c.viol("numpropvert:" + N, N, "NumPropVert()=" + std::to_string(m.NumPropVert()) + " but GetMeshGL64() has " + std::to_string(o.topo.nPropVert) +
-                                        " vertices (NumVert()=" + std::to_string(m.NumVert()) + ", NumProp()=" + std::to_string(m.NumProp()) + ")");
+    // (coordinator) not a verdict: the statement names IsEmpty/NumVert/NumTri/NumProp only, so a NumPropVert() that differs from the
+    // export's vertex count is recorded as information (findings/C18.md D2), not as a violation of C18.
+    if (m.NumPropVert() != o.topo.nPropVert) c.count("info_numpropvert_differs_from_export");
     c.count("scalars", 7);
   }
   // ---- WindingNumber at 64 + 343 lattice points (one batch call, then the first 64 one by one)
@@ -686,8 +686,9 @@ static void caseRay(const Obj& o, Ctx& c) {
   aPos.flush(c, N);
   aCount.flush(c, N);
   aParity.flush(c, N);
-  aFace.flush(c, N);
-  aSet.flush(c, N);
+  // (coordinator) RayHit::faceID is not part of the C18 statement (crossings, order, positions, parity): that it names an internal
+  // triangle index rather than the exported one (findings/C18.md D1) is recorded as information, not as a violation.
+  if (aFace.n || aSet.n) c.count("info_objects_whose_faceid_is_not_the_export_index");
   aNormal.flush(c, N);
   c.count("segments", segs);
   c.count("segments_skipped", skipped);
@@ -871,7 +872,7 @@ int main(int argc, char** argv) {
     for (int i = 0; i < (int)np; ++i)
       if (!asanSubset || i % 3 == 0) sel.push_back(i);
     R.phase("measure", sel.size(), 1, [&](uint64_t idx, Ctx& c) { caseMeasure(pool[sel[idx]], c); },
-            {"objects", "scalars", "winding_pts", "winding_inside", "winding_not01", "slices", "slice_pts", "slice_inside", "project_pts",
+            {"objects", "info_numpropvert_differs_from_export", "scalars", "winding_pts", "winding_inside", "winding_not01", "slices", "slice_pts", "slice_inside", "project_pts",
              "project_covered", "decompose_parts"});
   }
   // ---------- raycast: every object (every 6th under ASan)
@@ -880,7 +881,7 @@ int main(int argc, char** argv) {
     for (int i = 0; i < (int)np; ++i)
       if (!asanSubset || i % 6 == 0) sel.push_back(i);
     R.phase("raycast", sel.size(), 1, [&](uint64_t idx, Ctx& c) { caseRay(pool[sel[idx]], c); },
-            {"objects", "segments", "segments_skipped", "segments_with_hits", "segments_parity_odd", "hits"});
+            {"objects", "info_objects_whose_faceid_is_not_the_export_index", "segments", "segments_skipped", "segments_with_hits", "segments_parity_odd", "hits"});
   }
   // ---------- mingap: all ordered pairs of the placed family
   {
